@@ -387,6 +387,9 @@ class LoadIncludes(Contract):
         fnk, dk = case.split(":")
         if out.kind == "raise":
             # only inside the arbitrary iteration (an include line): ValueError at depth 5, IOError for a missing file
+            if E.__dict__.get("loop_mode") is None:
+                yield "no-error-without-an-include-line", False
+                return
             if dk == "depth=5":
                 yield "depth-limit", out.raised(ValueError)
             else:
